@@ -263,6 +263,7 @@ type FaultPlan struct {
 	Partitions bool
 	Crashes    bool
 	Skew       bool
+	LongOutage bool // a crashed node may stay down for up to 60 block slots (it then needs a block sync, not a fast switch)
 }
 
 // ScheduleFaults draws fault events over [0, horizon]: partitions with heal, crash + restart of honest nodes,
@@ -308,6 +309,10 @@ func (w *World) ScheduleFaults(plan FaultPlan, horizon time.Duration) {
 			}
 			at := time.Duration(simkit.Int(t, "crashat", 0, hz)) * time.Millisecond
 			down := time.Duration(simkit.Int(t, "downfor", 1, 20)) * w.BlockTime
+			if plan.LongOutage && simkit.Chance(t, "longoutage", 1, 3) {
+				down = time.Duration(simkit.Int(t, "downforlong", 20, 60)) * w.BlockTime
+				simkit.Fault("long_outage")
+			}
 			mode := simkit.Int(t, "crashmode", 0, 2) // 0 graceful, 1 kill, 2 power loss
 			s.At(at, "crash "+n.Name, func() {
 				if !n.Up {
